@@ -33,6 +33,10 @@ class Harness:
     def params(self, tier):
         p = dict(shards=1, budget_s=60.0, per_path_s=20.0)
         p.update(self.tiers.get(tier) or self.tiers["quick"])
+        import json, os
+
+        if os.environ.get("VERIF_PARAMS"):  # developer override, e.g. VERIF_PARAMS='{"L":4}'
+            p.update(json.loads(os.environ["VERIF_PARAMS"]))
         return p
 
 
